@@ -75,6 +75,8 @@ def emit_stmts(o, scn, stmts, ctx):
             vsc.soft(emit_expr(o, scn, s["e"], ctx))
         elif k == "unique":
             vsc.unique(*[emit_expr(o, scn, x, ctx) for x in s["es"]])
+        elif k == "raise":
+            raise common.FaultInjected()
         elif k == "unique_vec":
             vsc.unique_vec(*[getattr(o, scn["lists"][li]["name"]) for li in s["ls"]])
         elif k == "implies":
@@ -107,7 +109,7 @@ def emit_stmts(o, scn, stmts, ctx):
 _n = [0]
 
 
-def build_class(scn):
+def build_class(scn, extra_methods=None):
     fields, lists = scn["fields"], scn["lists"]
     scn["_names"] = [f["name"] for f in fields]
 
@@ -125,6 +127,7 @@ def build_class(scn):
         fn = mk(b["stmts"])
         fn.__name__ = b["name"]
         d[b["name"]] = vsc.constraint(fn)
+    d.update(extra_methods or {})
     _n[0] += 1
     return vsc.randobj(type("LS%d" % _n[0], (object,), d))
 
